@@ -139,6 +139,10 @@ fn enumerate_tables(full: bool) -> Vec<TableCase> {
     out
 }
 
+pub fn big_tables() -> impl Strategy<Value = TableCase> {
+    proptest::collection::vec(proptest::collection::vec((prop_oneof![3 => 0usize..12, 2 => 0usize..40], (0usize..LIMITS.len()).prop_map(|i| LIMITS[i])), 1..48), 1..4).prop_map(|batches| TableCase { batches })
+}
+
 pub fn run_tables(env: &Env, rep: &Report) {
     let tables = enumerate_tables(env.tier == Tier::Thorough);
     let w = workers();
@@ -151,10 +155,7 @@ pub fn run_tables(env: &Env, rep: &Report) {
         }
     });
     // long tables (accumulated over several calls, many gaps configured more than once)
-    let big = || {
-        proptest::collection::vec(proptest::collection::vec((prop_oneof![3 => 0usize..12, 2 => 0usize..40], (0usize..LIMITS.len()).prop_map(|i| LIMITS[i])), 1..48), 1..4).prop_map(|batches| TableCase { batches })
-    };
-    par_generated(rep, "big-tables", big, env.tier.pick(40_000, 600_000), workers(), check_table);
+    par_generated(rep, "big-tables", big_tables, env.tier.pick(40_000, 600_000), workers(), check_table);
     rep.set_exhaustive("tables", true);
     rep.note("tables", "every table over <=3 (thorough: <=4) of the gaps 0..8 with limits from {0.25,0.5,1,2,4}, sorted and reversed insertion, first gap optionally configured twice (same batch before/after, earlier/later batch); probed at gaps 0..10 x 32 distances (0, each limit +-2 ulp, 0.75*limit, 10)".into());
 }
